@@ -13,6 +13,8 @@ NOTE_ENGINE = ("theorems are about the hand-written record-level Gallina model o
 CLAIMS = {
     "C01": ("Theorem C01_reads_return_latest_write: for every configuration and every finite script over Put/Get/Delete/ListKeys/Fold/Stat/Sync/batches/Merge on a fresh database, all results equal those of a plain ordered map (proved by an invariant + refinement, unbounded in script length and value sizes); the model is executed against the real engine on generated scripts (incl. records ending within 8 bytes of a block boundary) on every run, with a reference-map oracle on the implementation side",
             NOTE_ENGINE + "; index type/shard count abstracted (C10/C14)"),
+    "C02": ("Theorems C02_restart_preserves_mapping / C02_close_open / C02_open_replays_log: for every history (merge-free) with restarts anywhere under arbitrary, independently chosen configurations, all results equal those of a map on which restart is the identity; Open after Close always succeeds; recovery = replay of the log with per-batch buffering (proved via a log invariant maintained by every operation, unbounded histories); correspondence run with restarts (all index types, shard counts, both I/O types, merges included) and a dump-before-close = dump-after-open oracle",
+            NOTE_ENGINE + "; histories with merges are not covered by the restart theorem (see C06), only by the correspondence run"),
     "C05": ("Theorems C05_*: a batch behaves as a private copy of the map installed at Commit (read-your-writes, in-order application, put-delete-put ends present), Commit succeeds and marks the batch committed, a committed batch rejects Put/Delete/Get/Commit without changing the database - for every database state, every sequence of batch operations incl. mid-batch flushes; correspondence run on batch-heavy scripts with a layered reference oracle",
             NOTE_ENGINE + "; the staging hash index is abstracted to key lookup; a fatal double unlock is observable only in the correspondence run"),
     "C11": ("Coq theorems (props/C11.v, closed under the global context) for every history of a data file, every record length and every block offset, about an executable model that is run against package datafile on generated histories on every check (bytes, positions, sizes, scans, random reads compared)",
